@@ -618,3 +618,492 @@ def view_lemmas(prop):
         recs.append(dict(name=f'{prop}/tree-view/nleaves-positive/{kind}', kind=kind.split('[')[0], verdict=v, backend=b, ms=ms, inputs=None,
                          detail='every tree view has at least one word', witness=dict(function='spec function nleaves')))
     return recs
+
+
+# ============================================================================ depccg/printer/jigg_xml.py (C15: a Jigg XML sentence is self-contained)
+_SP = z3.Datatype('JiggSpan')
+_SP.declare('Span', ('idn', I_), ('cat', S_), ('terminal', I_), ('child1', I_), ('child2', I_), ('rule', S_), ('begin', I_), ('end', I_))
+SP = _SP.create()
+SPARR = z3.ArraySort(I_, SP)
+CATMV = None
+nnodes = z3.RecFunction('tv_nnodes', T, I_)
+z3.RecAddDefinition(nnodes, [_t], z3.If(T.is_Leaf(_t), 1, z3.If(T.is_Un(_t), 1 + nnodes(T.child(_t)), 1 + nnodes(T.left(_t)) + nnodes(T.right(_t)))))
+USE_SYMBOL = z3.Bool('use_symbol')
+_JG = {}
+
+
+def span_rec(I):
+    """the j-th span element (pre-order) of a node whose own id number is p and whose first word has offset c:
+       own record: id p, category text, terminal c (leaf) or child ids p + 1 [and p + 1 + nnodes(left)], rule label, begin c, end c + nleaves"""
+    if 'f' not in _JG:
+        f = z3.RecFunction('tv_span_rec', T, I_, I_, I_, SP)
+        p, c, j = z3.Int('p'), z3.Int('c'), z3.Int('j')
+        _JG['f'] = f
+        _JG['body'] = lambda t, p, c, j: span_rec_body(I, f, t, p, c, j)
+        z3.RecAddDefinition(f, [_t, p, c, j], _JG['body'](_t, p, c, j))
+    return _JG['f']
+
+
+def cat_mv(I):
+    global CATMV
+    if CATMV is None:
+        CATMV = z3.Function('jigg_cat_text', I.w.Cat, S_)
+    return CATMV
+
+
+def span_rec_body(I, f, t, p, c, j):
+    cat = lambda g: cat_mv(I)(CAT_OF(I)(g))
+    rule = lambda g: z3.If(USE_SYMBOL, OP_SYMBOL(g), OP_STRING(g))
+    nl = nleaves(T.left(t))
+    own = z3.If(T.is_Leaf(t), SP.Span(p, cat(T.ltag(t)), c, -1, -1, z3.StringVal(''), c, c + 1),
+                z3.If(T.is_Un(t), SP.Span(p, cat(T.utag(t)), -1, p + 1, -1, rule(T.utag(t)), c, c + nleaves(t)),
+                      SP.Span(p, cat(T.btag(t)), -1, p + 1, p + 1 + nnodes(T.left(t)), rule(T.btag(t)), c, c + nleaves(t))))
+    return z3.If(j == 0, own,
+                 z3.If(T.is_Un(t), f(T.child(t), p + 1, c, j - 1),
+                       z3.If(j - 1 < nnodes(T.left(t)), f(T.left(t), p + 1, c, j - 1), f(T.right(t), p + 1 + nnodes(T.left(t)), c + nl, j - 1 - nnodes(T.left(t))))))
+
+
+def unfold_span_rec(I, e):
+    f = span_rec(I)
+    p, c, j = z3.Int('p!u'), z3.Int('c!u'), z3.Int('j!u')
+    I.ctx.assume(z3.ForAll([p, c, j], f(e, p, c, j) == _JG['body'](e, p, c, j)))
+
+
+def _tree_len(self, I, node):
+    return Z(nleaves(self.e))        # Tree.__len__ = len(self.leaves) (contract of Tree.leaves, assumed)
+
+
+SymTree.length = _tree_len
+
+
+class SymSpanList:
+    """the children of the <ccg> element: span records as an array with a length; the element created on this path stays a python object until the end"""
+    def __init__(self, arr, n):
+        self.tagname, self.arr, self.n, self.attrs, self.pending = 'ccg', arr, n, {}, []
+
+    def getattr(self, I, name, node):
+        if name == 'set':
+            def set_(I, args, kwargs, node):
+                self.attrs[args[0]] = args[1]
+                return None
+            return _Method(set_)
+        raise CheckerError(f'ccg element .{name} is outside the model')
+
+    def getitem(self, I, k, node):
+        for idx, e in self.pending:
+            if z3.is_true(z3.simplify(idx == I.ex(k))):
+                return e
+        raise CheckerError('res[k] for an element that was not created on this path')
+
+    def final_arr(self, I):
+        arr, side = self.arr, []
+        for idx, e in self.pending:
+            term, ok = span_term(I, e)
+            side.append(ok)
+            if term is not None:
+                arr = z3.Store(arr, idx, term)
+        return arr, z3.And(side) if side else z3.BoolVal(True)
+
+
+def fstring_shape(v, prefix_lits):
+    """v is the text  lit0 <int> lit1 <int> ...  with the given literals: returns the ints or None"""
+    from vc.pyvc import FString, SymIntStr
+    if not isinstance(v, FString):
+        return None
+    parts, out, i = list(v.parts), [], 0
+    # merge adjacent literals
+    norm = []
+    for p in parts:
+        if isinstance(p, str) and norm and isinstance(norm[-1], str):
+            norm[-1] += p
+        else:
+            norm.append(p)
+    want = []
+    for lit in prefix_lits:
+        want.append(lit)
+        want.append(None)
+    if len(norm) != len(want):
+        return None
+    for p, w in zip(norm, want):
+        if w is None:
+            if not isinstance(p, SymIntStr):
+                return None
+            out.append(p.z.e)
+        elif p != w:
+            return None
+    return out
+
+
+def span_term(I, e):
+    """the span record of a <span> element built on this path, and whether its attributes have the shapes the record stands for"""
+    a = e.attrs
+    sid = _JG['sid']
+
+    def sval(v):
+        return z3.StringVal(v) if isinstance(v, str) else v.e if isinstance(v, Z) else None
+    ok = []
+    ids = fstring_shape(a.get('id'), ['s', '_sp'])
+    if ids is None:
+        return None, z3.BoolVal(False)
+    ok.append(ids[0] == sid)
+    cat = sval(a.get('category'))
+    b, en = a.get('begin'), a.get('end')
+    if cat is None or not hasattr(b, 'z') or not hasattr(en, 'z'):
+        return None, z3.BoolVal(False)
+    keys = set(a) - {'root'}
+    if 'terminal' in a:
+        tm = fstring_shape(a['terminal'], ['s', '_'])
+        if tm is None or keys != {'category', 'id', 'terminal', 'begin', 'end'}:
+            return None, z3.BoolVal(False)
+        ok.append(tm[0] == sid)
+        return SP.Span(ids[1], cat, tm[1], -1, -1, z3.StringVal(''), b.z.e, en.z.e), z3.And(ok)
+    if keys != {'category', 'id', 'child', 'rule', 'begin', 'end'}:
+        return None, z3.BoolVal(False)
+    rule = sval(a['rule'])
+    c1 = fstring_shape(a['child'], ['s', '_sp'])
+    c2 = fstring_shape(a['child'], ['s', '_sp', ' s', '_sp'])
+    if rule is None or (c1 is None and c2 is None):
+        return None, z3.BoolVal(False)
+    if c1 is not None:
+        ok.append(c1[0] == sid)
+        return SP.Span(ids[1], cat, -1, c1[1], -1, rule, b.z.e, en.z.e), z3.And(ok)
+    ok += [c2[0] == sid, c2[2] == sid]
+    return SP.Span(ids[1], cat, -1, c2[1], c2[3], rule, b.z.e, en.z.e), z3.And(ok)
+
+
+def install_etree_jigg(I):
+    import types
+    et = I.modules['lxml.etree']
+    base_sub = et.SubElement
+
+    def sub(I_, args, kwargs, node):
+        parent, tagname = args
+        if isinstance(parent, SymSpanList):
+            e = SymElem(tagname)
+            parent.pending.append((parent.n, e))
+            parent.n = parent.n + 1
+            return e
+        return base_sub.call(I_, args, kwargs, node)
+    et.SubElement = _Method(sub)
+
+
+JREL = 'depccg/printer/jigg_xml.py'
+
+
+class CatMultiValued(Contract):
+    """_cat_multi_valued: Jigg's spelling of a category, kept opaque (a function of the category); its text is compared by the bounded run"""
+    rel, qualname = JREL, '_cat_multi_valued'
+
+    def apply(self, I, args, kwargs, node):
+        c = args[0]
+        if not (isinstance(c, Z) and I.sort_name(c) == 'Cat'):
+            raise CheckerError('_cat_multi_valued of something that is not a category')
+        return Z(cat_mv(I)(c.e))
+
+
+def traverse_clauses(I, t, p0, c0, m0, arr0, arr1, n1, spid1, counter1, ret):
+    """contract of traverse(node): ids p0+1 .. p0+nnodes, words c0 .. c0+nleaves, the spans appended in pre-order, nothing before them touched"""
+    j = z3.Int('j!t')
+    f = span_rec(I)
+    idn, start = ret
+    return [('counters', z3.And(spid1 == p0 + nnodes(t), counter1 == c0 + nleaves(t), n1 == m0 + nnodes(t), nnodes(t) >= 1)),
+            ('returns', z3.And(idn == p0 + 1, start == c0)),
+            ('own-span', z3.Select(arr1, m0) == f(t, p0 + 1, c0, 0)),
+            ('frame', z3.ForAll([j], z3.Implies(z3.And(j >= 0, j < m0), z3.Select(arr1, j) == z3.Select(arr0, j)))),
+            ('subtree-spans', z3.ForAll([j], z3.Implies(z3.And(j >= 0, j < nnodes(t)), z3.Select(arr1, m0 + j) == f(t, p0 + 1, c0, j))))]
+
+
+def traverse_post(*a):
+    return z3.And([g for _, g in traverse_clauses(*a)])
+
+
+class JiggTraverse(Contract):
+    rel, qualname = JREL, '_ConvertToJiggXML.process.traverse'
+
+    def closure_env(self, I, f):
+        m = I.load_module('depccg.printer.jigg_xml')
+        env = Env(m.env)
+        env.set('traverse', f)
+        self._env = env
+        return env
+
+    def _state(self, I):
+        from vc.pyvc import Obj
+        m = I.load_module('depccg.printer.jigg_xml')
+        cls = m.env.lookup('_ConvertToJiggXML')
+        sid, p0, c0, m0 = z3.Int('sid'), z3.Int('spid0'), z3.Int('counter0'), z3.Int('m0')
+        _JG['sid'] = sid
+        obj = Obj(cls)
+        obj.attrs.update(sid=Z(sid), _spid=Z(p0), processed=Z(z3.Int('processed0')), use_symbol=Z(USE_SYMBOL))
+        res = SymSpanList(z3.Const('spans0', SPARR), m0)
+        return obj, res, sid, p0, c0, m0
+
+    def cases(self, I):
+        def build(I):
+            t = z3.Const('node', T)
+            obj, res, sid, p0, c0, m0 = self._state(I)
+            env = self._env
+            env.set('self', obj)
+            env.set('res', res)
+            env.set('counter', Z(c0))
+            env.set('etree', I.modules['lxml.etree'])
+            self._pre = (t, obj, res, p0, c0, m0, res.arr)
+            unfold_span_rec(I, t)
+            I.ctx.assume(nleaves(t) >= 1)
+            return [SymTree(t)], {}, [m0 >= 0, sid >= 0, p0 >= -1, c0 >= 0], None
+        yield Case('any-node', build)
+
+    def post(self, I, case, args, result):
+        t, obj, res, p0, c0, m0, arr0 = self._pre
+        if not (isinstance(result, tuple) and len(result) == 2):
+            return z3.BoolVal(False)
+        ids = fstring_shape(result[0], ['s', '_sp'])
+        if ids is None:
+            return z3.BoolVal(False)
+        arr1, side = res.final_arr(I)
+        counter1 = I.ex(self._env.lookup('counter'))
+        return [('attribute-shapes', z3.And(side, ids[0] == _JG['sid']))] + \
+            traverse_clauses(I, t, p0, c0, m0, arr0, arr1, res.n, I.ex(obj.attrs['_spid']), counter1, (ids[1], I.ex(result[1])))
+
+    def apply(self, I, args, kwargs, node):
+        from vc.pyvc import FString, SymIntStr
+        f = I.callee
+        if len(args) != 1 or not isinstance(args[0], SymTree):
+            raise CheckerError('traverse called with something that is not a tree view')
+        t = args[0].e
+        env = f.env
+        obj, res = env.lookup('self'), env.lookup('res')
+        if not isinstance(res, SymSpanList):
+            raise CheckerError('traverse called while `res` is not the span list')
+        p0, c0, m0, arr0 = I.ex(obj.attrs['_spid']), I.ex(env.lookup('counter')), res.n, res.arr
+        arr1 = I.fresh('spans', SPARR)
+        idn, start = I.fresh('span_id', I_), I.fresh('span_start', I_)
+        res.arr, res.n = arr1, m0 + nnodes(t)
+        obj.attrs['_spid'] = Z(p0 + nnodes(t))
+        env.set('counter', Z(c0 + nleaves(t)))
+        I.ctx.assume(traverse_post(I, t, p0, c0, m0, arr0, arr1, res.n, p0 + nnodes(t), c0 + nleaves(t), (idn, start)))
+        return (FString(['s', SymIntStr(Z(_JG['sid'])), '_sp', SymIntStr(Z(idn))]), Z(start))
+
+
+class JiggProcess(Contract):
+    """process(tree): one <ccg> with the spans of the tree in pre-order, ids continuing after the ones used before (n-best lists of one sentence share the converter)"""
+    rel, qualname = JREL, '_ConvertToJiggXML.process'
+
+    def cases(self, I):
+        def build(I):
+            t = z3.Const('tree', T)
+            from vc.pyvc import Obj
+            m = I.load_module('depccg.printer.jigg_xml')
+            cls = m.env.lookup('_ConvertToJiggXML')
+            sid, p0, pr0 = z3.Int('sid'), z3.Int('spid0'), z3.Int('processed0')
+            _JG['sid'] = sid
+            obj = Obj(cls)
+            obj.attrs.update(sid=Z(sid), _spid=Z(p0), processed=Z(pr0), use_symbol=Z(USE_SYMBOL))
+            self._pre = (t, obj, sid, p0, pr0)
+            self._res = None
+            orig = I.modules['lxml.etree'].Element
+
+            def element(I_, args, kwargs, node):
+                if args[0] == 'ccg':
+                    self._res = SymSpanList(z3.K(I_sort(), SP.Span(0, z3.StringVal(''), 0, 0, 0, z3.StringVal(''), 0, 0)), z3.IntVal(0))
+                    return self._res
+                return orig.call(I_, args, kwargs, node)
+            self._element = _Method(element)
+            I.modules['lxml.etree'].Element = self._element
+            self._orig = orig
+            unfold_span_rec(I, t)
+            return [obj, SymTree(t)], {}, [sid >= 0, p0 >= -1, pr0 >= 0], None
+        yield Case('any-tree', build)
+
+    def post(self, I, case, args, result):
+        I.modules['lxml.etree'].Element = self._orig
+        t, obj, sid, p0, pr0 = self._pre
+        res = self._res
+        if res is None or result is not res:
+            return z3.BoolVal(False)
+        j = z3.Int('j!p')
+        f = span_rec(I)
+        cid = fstring_shape(res.attrs.get('id'), ['s', '_ccg'])
+        root = fstring_shape(res.attrs.get('root'), ['s', '_sp'])
+        if cid is None or root is None or res.pending:
+            return z3.BoolVal(False)
+        rootflag = getattr(self, '_rootflag', None)
+        return z3.And(res.n == nnodes(t),
+                      z3.ForAll([j], z3.Implies(z3.And(j >= 0, j < nnodes(t)), z3.Select(res.arr, j) == f(t, p0 + 1, 0, j))),     # spans in pre-order, offsets from 0
+                      cid[0] == sid, cid[1] == pr0, root[0] == sid, root[1] == p0 + 1,                                            # ccg id, root reference = first span
+                      z3.BoolVal(res.root_marked == 0),                                                                             # exactly the first span carries root="true"
+                      I.ex(obj.attrs['_spid']) == p0 + nnodes(t), I.ex(obj.attrs['processed']) == pr0 + 1)                         # the next tree continues after these ids
+
+
+def I_sort():
+    return I_
+
+
+def _spanlist_getitem(self, I, k, node):
+    """res[0].set('root', 'true'): marking one span as the root"""
+    idx = I.ex(k)
+    lst = self
+
+    class _Marked:
+        def getattr(self_, I_, name, node_):
+            if name == 'set':
+                def set_(I2, args, kwargs, n2):
+                    if list(args) != ['root', 'true']:
+                        raise CheckerError('an attribute other than root="true" is set on a span after the traversal')
+                    if getattr(lst, 'root_marked', None) is not None:
+                        raise CheckerError('two spans are marked as root')
+                    v = z3.simplify(idx)
+                    lst.root_marked = v.as_long() if z3.is_int_value(v) else v
+                    return None
+                return _Method(set_)
+            raise CheckerError(f'span .{name} after the traversal')
+    for i, e in self.pending:
+        if z3.is_true(z3.simplify(i == idx)):
+            return e
+    return _Marked()
+
+
+SymSpanList.getitem = _spanlist_getitem
+SymSpanList.root_marked = None
+
+
+# ---------------------------------------------------------------------------- what the span records of a tree say (lemmas over the spec function, structural induction)
+def jigg_lemmas(I, prop):
+    """the sentence-level clauses of C15 as facts about span_rec(t, p, c, .), each by structural induction on t (base: leaf; steps: unary, binary):
+       ids:      record j has id p + j                                  -> ids are unique, and consecutive trees of an n-best list (p' = p + nnodes) never collide
+       refs:     child ids lie in (own id, p + nnodes), terminals in [c, c + nleaves), begin/end inside [c, c + nleaves] with begin < end
+       and, by unfolding at one node: the child references are the ids of the children's own records, and the children's offsets tile the parent's"""
+    from vc.engine import solve
+    f = span_rec(I)
+    p, c, j = z3.Int('p'), z3.Int('c'), z3.Int('j')
+    g, ch, l, r, h = z3.Int('g'), z3.Const('ch', T), z3.Const('l', T), z3.Const('r', T), z3.Bool('h')
+
+    def unfold(e):
+        pp, cc, jj = z3.Int('p!u'), z3.Int('c!u'), z3.Int('j!u')
+        return z3.ForAll([pp, cc, jj], f(e, pp, cc, jj) == _JG['body'](e, pp, cc, jj))
+
+    def inst(e, p_, c_, j_):
+        return f(e, p_, c_, j_) == _JG['body'](e, p_, c_, j_)
+
+    def ids(t, p_, c_, j_):
+        return z3.Implies(z3.And(j_ >= 0, j_ < nnodes(t)), SP.idn(f(t, p_, c_, j_)) == p_ + j_)
+
+    def refs(t, p_, c_, j_):
+        rec = f(t, p_, c_, j_)
+        n, k = nnodes(t), nleaves(t)
+        return z3.Implies(z3.And(j_ >= 0, j_ < n, c_ >= 0, p_ >= 0), z3.And(
+            z3.Or(SP.child1(rec) == -1, z3.And(SP.child1(rec) > p_ + j_, SP.child1(rec) < p_ + n)),
+            z3.Or(SP.child2(rec) == -1, z3.And(SP.child2(rec) > SP.child1(rec), SP.child1(rec) != -1, SP.child2(rec) < p_ + n)),
+            z3.Or(SP.terminal(rec) == -1, z3.And(SP.terminal(rec) >= c_, SP.terminal(rec) < c_ + k)),
+            (SP.terminal(rec) == -1) != (SP.child1(rec) == -1),
+            SP.begin(rec) >= c_, SP.begin(rec) < SP.end(rec), SP.end(rec) <= c_ + k))
+    size = lambda t: z3.And(nnodes(t) >= 1, nleaves(t) >= 1)
+    recs = []
+    for name, stmt in (('ids', ids), ('refs', refs)):
+        leaf, un, bn = T.Leaf(g), T.Un(g, ch), T.Bin(g, l, r, h)
+        # the induction hypothesis is used at the argument tuples the definition recurses with (the statement is for all p, c, j: instances are legitimate)
+        items = [('lemma-base', stmt(leaf, p, c, j), [inst(leaf, p, c, j)]),
+                 ('lemma-step[unary]', stmt(un, p, c, j), [inst(un, p, c, j), stmt(ch, p + 1, c, j - 1), size(ch)]),
+                 ]
+        defs = [nnodes(bn) == 1 + nnodes(l) + nnodes(r), nleaves(bn) == nleaves(l) + nleaves(r)]      # the definitions of nnodes / nleaves at the binary node
+        # the binary step, split by where the j-th span lies: the node itself, the left subtree, the right subtree
+        items.append(('lemma-step[binary,own]', stmt(bn, p, c, j), defs + [j == 0, inst(bn, p, c, j), size(l), size(r)]))
+        items.append(('lemma-step[binary,left]', stmt(bn, p, c, j), defs + [j >= 1, j - 1 < nnodes(l), inst(bn, p, c, j), stmt(l, p + 1, c, j - 1), size(l), size(r)]))
+        items.append(('lemma-step[binary,right]', stmt(bn, p, c, j), defs + [j - 1 >= nnodes(l), inst(bn, p, c, j), stmt(r, p + 1 + nnodes(l), c + nleaves(l), j - 1 - nnodes(l)), size(l), size(r)]))
+        for kind, goal, hyp in items:
+            v, b, ms, _ = solve(goal, hyp, timeout_ms=30000)
+            recs.append(dict(name=f'{prop}/jigg-spans/{name}/{kind}', kind=kind.split('[')[0], verdict=v, backend=b, ms=ms, inputs=None,
+                             detail={'ids': 'the j-th span of a tree has id p + j (unique ids, disjoint id ranges for consecutive trees)',
+                                     'refs': 'child / terminal references and offsets of every span stay inside the id range, word range and offset range of the tree'}[name],
+                             witness=dict(function='spec function span_rec')))
+    # node-level facts by unfolding the definition at the records involved (no induction): references are the children's own records, offsets tile
+    bn = T.Bin(g, l, r, h)
+    own = f(bn, p, c, 0)
+    pl, pr_, cr = p + 1, p + 1 + nnodes(l), c + nleaves(l)
+    lrec, rrec = f(bn, p, c, 1), f(bn, p, c, 1 + nnodes(l))
+    goal = z3.And(SP.child1(own) == SP.idn(lrec), SP.child2(own) == SP.idn(rrec), lrec == f(l, pl, c, 0), rrec == f(r, pr_, cr, 0),
+                  SP.begin(lrec) == SP.begin(own), SP.end(lrec) == SP.begin(rrec), SP.end(rrec) == SP.end(own))
+    own_facts = lambda t, p_, c_: z3.And(SP.begin(f(t, p_, c_, 0)) == c_, SP.end(f(t, p_, c_, 0)) == c_ + nleaves(t), SP.idn(f(t, p_, c_, 0)) == p_)     # lemma own-record (below)
+    hyp = [inst(bn, p, c, 0), inst(bn, p, c, 1), inst(bn, p, c, 1 + nnodes(l)), size(l), size(r), own_facts(l, pl, c), own_facts(r, pr_, cr)]
+    v, b, ms, _ = solve(goal, hyp, timeout_ms=30000)
+    recs.append(dict(name=f'{prop}/jigg-spans/tiling/binary', kind='lemma', verdict=v, backend=b, ms=ms, inputs=None,
+                     detail='the child references of a binary span are the ids of its children own spans, and the offsets of the children tile those of the parent', witness=dict(function='spec function span_rec')))
+    for nm, t_ in (('leaf', T.Leaf(g)), ('unary', T.Un(g, ch)), ('binary', T.Bin(g, l, r, h))):
+        v, b, ms, _ = solve(own_facts(t_, p, c), [inst(t_, p, c, 0)], timeout_ms=30000)
+        recs.append(dict(name=f'{prop}/jigg-spans/own-record/{nm}', kind='lemma', verdict=v, backend=b, ms=ms, inputs=None,
+                         detail='the own span of a node: id p, begin c, end c + nleaves', witness=dict(function='spec function span_rec')))
+    un = T.Un(g, ch)
+    v, b, ms, _ = solve(z3.And(SP.child1(f(un, p, c, 0)) == SP.idn(f(un, p, c, 1)), f(un, p, c, 1) == f(ch, p + 1, c, 0), SP.begin(f(ch, p + 1, c, 0)) == c, SP.end(f(ch, p + 1, c, 0)) == SP.end(f(un, p, c, 0))),
+                        [inst(un, p, c, 0), inst(un, p, c, 1), size(ch), own_facts(ch, p + 1, c)], timeout_ms=30000)
+    recs.append(dict(name=f'{prop}/jigg-spans/tiling/unary', kind='lemma', verdict=v, backend=b, ms=ms, inputs=None,
+                     detail='the child reference of a unary span is the id of the own span of its child, which covers the same words', witness=dict(function='spec function span_rec')))
+    # n-best: two consecutive process() calls on one converter use disjoint id ranges (process post: _spid' = _spid + nnodes; lemma ids)
+    t1, t2, p0, j1, j2 = z3.Const('t1', T), z3.Const('t2', T), z3.Int('p0'), z3.Int('j1'), z3.Int('j2')
+    v, b, ms, _ = solve(z3.Implies(z3.And(j1 >= 0, j1 < nnodes(t1), j2 >= 0, j2 < nnodes(t2)), SP.idn(f(t1, p0 + 1, 0, j1)) != SP.idn(f(t2, p0 + nnodes(t1) + 1, 0, j2))),
+                        [ids(t1, p0 + 1, z3.IntVal(0), j1), ids(t2, p0 + nnodes(t1) + 1, z3.IntVal(0), j2)], timeout_ms=30000)
+    recs.append(dict(name=f'{prop}/jigg-spans/nbest-ids-disjoint', kind='lemma', verdict=v, backend=b, ms=ms, inputs=None,
+                     detail='the spans of the next tree of an n-best list (converter._spid advanced by nnodes) have ids different from all spans of the tree before', witness=dict(function='process contract + lemma ids')))
+    return recs
+
+
+def jigg_call_site(I, prop):
+    """to_jigg_xml: one converter per sentence, created inside the sentence loop and outside the n-best loop, and every tree of the sentence goes through converter.process"""
+    import ast
+    from vc.pyvc import parse_source
+    tree = parse_source(JREL)
+    fn = [n for n in tree.body if isinstance(n, ast.FunctionDef) and n.name == 'to_jigg_xml']
+    ok, why = False, 'to_jigg_xml not found'
+    if fn:
+        fn = fn[0]
+        outer = [n for n in fn.body if isinstance(n, ast.For)]
+        why = 'no sentence loop'
+        if len(outer) == 1:
+            o = outer[0]
+            assigns = [n for n in ast.walk(fn) if isinstance(n, ast.Assign) and any(isinstance(t, ast.Name) and t.id == 'converter' for t in n.targets)]
+            inner = [n for n in o.body if isinstance(n, ast.For) and ast.unparse(n.iter) == 'parsed']
+            direct = [n for n in o.body if n in assigns]
+            why = 'converter is not created exactly once, directly in the sentence loop'
+            if len(assigns) == 1 and len(direct) == 1 and isinstance(assigns[0].value, ast.Call) and ast.unparse(assigns[0].value.func) == '_ConvertToJiggXML' and inner:
+                why = 'the n-best loop does not append converter.process(tree, score) for every tree'
+                body = inner[-1].body
+                calls = [n for n in ast.walk(inner[-1]) if isinstance(n, ast.Call) and ast.unparse(n.func) == 'converter.process']
+                ok = (o.body.index(direct[0]) < o.body.index(inner[-1]) and len(body) == 1 and len(calls) == 1 and isinstance(body[0], ast.Expr)
+                      and ast.unparse(body[0].value.func).endswith('.append') and body[0].value.args and body[0].value.args[0] is calls[0]
+                      and isinstance(inner[-1].target, ast.Tuple) and ast.unparse(calls[0].args[0]) == inner[-1].target.elts[0].id)
+                if ok:
+                    why = 'one converter per sentence; every (tree, score) of the n-best list is appended through converter.process'
+    return [dict(name=f'{prop}/{JREL}::to_jigg_xml/call-site[converter]', kind='call-site', verdict='discharged' if ok else 'failed', backend='ast', ms=0, inputs=None, detail=why,
+                 witness=dict(function=f'{JREL}::to_jigg_xml'))]
+
+
+# ---------------------------------------------------------------------------- replay of refuted / undecided obligations on the real code
+REPLAY_KEYS = {'depccg/printer/conll.py::_resolve_dependencies': 'depccg/printer/conll.py::_resolve_dependencies',
+               'depccg/printer/xml.py::_process_tree': 'depccg/printer/xml.py::_process_tree',
+               'depccg/printer/jigg_xml.py::_ConvertToJiggXML.process': 'depccg/printer/jigg_xml.py::_ConvertToJiggXML.process'}
+
+
+def replay_views(records):
+    """records that are refuted or undecided get the result of bounded/view_replay.py for their function: a concrete failing tree turns them into violations
+    with a replayed input; without one a refuted obligation stays a violation without input and an undecided one stays undecided"""
+    import json
+    import os
+    from vc import engine
+    open_ = [r for r in records if r['verdict'] in ('failed', 'unknown') and r.get('backend') != 'bounded']
+    if not open_:
+        return None
+    script = open(os.path.join(engine.VERIF, 'bounded', 'view_replay.py')).read()
+    rc, out, err = engine.run_real(script, timeout=600, env_extra=dict(VERIF_REPO=engine.REPO))
+    try:
+        d = json.loads(out.strip().splitlines()[-1])
+    except Exception:
+        return dict(error=err[-800:])
+    for r in open_:
+        for prefix, key in REPLAY_KEYS.items():
+            if prefix in r['name'] and key in d['results']:
+                rp = dict(d['results'][key])
+                rp['how'] = 'bounded/view_replay.py: the real function against the python twin of the spec function; ' + d['rule']
+                r['replay'] = rp
+                if r['verdict'] == 'unknown':
+                    r['detail'] = ((r.get('detail') or '') + ' [undecided by the solver; the contract is violated by the replayed input]').strip()
+                    r['verdict'] = 'failed'
+    return d
